@@ -42,6 +42,7 @@ type Contract struct {
 	Where    string
 	Consumes []string // parameters of linear type that are NOT consumed (borrowed) are listed in Borrows
 	Borrows  []string
+	CallAssume map[string][]Clause
 	ExitGhost []GhostSet // ghost assignments performed at every return, before the postconditions are checked
 	Fresh    bool // results of linear type are fresh owned resources (default true)
 	Opts     map[string]string
@@ -84,6 +85,7 @@ type UFuncDecl struct {
 type ContractSet struct {
 	ByKey    map[string]*Contract
 	Pures    map[string]*PureDef
+	LockHavoc []string
 	TypeInvs map[string]*PureDef // "pkgpath.T" -> invariant over self
 	TypeSteps map[string]*PureDef // "pkgpath.T" -> two-state invariant over self
 	Ghosts   map[string]*GhostDecl
@@ -191,8 +193,8 @@ func (cs *ContractSet) loadContractFile(path, pkg string) error {
 			kw, rest = t[:i], t[i+1:]
 		}
 		switch kw {
-		case "ghost", "pure", "ufunc", "const", "monotone", "atomic", "linear", "typeinv", "typestep", "func", "iface", "extern", "lemma", "axiom",
-			"arith", "requires", "ensures", "modifies", "loop", "inline", "trusted", "borrows", "opt", "package", "exitghost":
+		case "ghost", "pure", "ufunc", "const", "monotone", "atomic", "linear", "typeinv", "typestep", "lockhavoc", "func", "iface", "extern", "lemma", "axiom",
+			"arith", "requires", "ensures", "modifies", "loop", "inline", "trusted", "borrows", "opt", "package", "exitghost", "callassume":
 			if err := flush(); err != nil {
 				return err
 			}
@@ -304,6 +306,14 @@ func (cs *ContractSet) addClause(cur **Contract, pkg, kw, rest, where string) er
 		}
 		name := strings.TrimSpace(rest[:i])
 		cs.Pures[name] = &PureDef{Name: name, Params: names, Body: body, Src: rest[k+1:]}
+		*cur = nil
+	case "lockhavoc":
+		// ghost state that is only meaningful within one lock hold
+		for _, n := range strings.Split(rest, ",") {
+			if n = strings.TrimSpace(n); n != "" {
+				cs.LockHavoc = append(cs.LockHavoc, n)
+			}
+		}
 		*cur = nil
 	case "typeinv", "typestep":
 		// typeinv T(self) = expr : invariant of objects of named type T, referred to as tinv(x)
@@ -434,6 +444,23 @@ func (cs *ContractSet) addClause(cur **Contract, pkg, kw, rest, where string) er
 			} else {
 				c.Opts[f[0]] = strings.Join(f[1:], " ")
 			}
+		case "callassume":
+			// callassume <callee> <expr>: an ASSUMPTION made just before calls to
+			// <callee> inside this function (facts the verifier cannot derive,
+			// e.g. that a callback has run); listed in the evidence.
+			f := strings.Fields(rest)
+			if len(f) < 2 {
+				return fmt.Errorf("%s: malformed callassume", where)
+			}
+			cl, err := mkClause(strings.TrimSpace(strings.TrimPrefix(rest, f[0])), where, 0, "assume")
+			if err != nil {
+				return err
+			}
+			if c.CallAssume == nil {
+				c.CallAssume = map[string][]Clause{}
+			}
+			c.CallAssume[f[0]] = append(c.CallAssume[f[0]], cl)
+			cs.Scan["callassume"]++
 		case "exitghost":
 			// exitghost g(x) := e [when cond]
 			i := strings.Index(rest, ":=")
